@@ -56,3 +56,10 @@ Require Import Base.GoBytes Gen.Bytes Tie.BytesAgree.
 Theorem C07_packet_at_model_is_the_source : forall m i, g_packet (g_MTData2_PacketAt m (Z.of_nat i)) = packet_at m i.
 Proof. exact packet_at_agrees. Qed.
 Print Assumptions C07_packet_at_model_is_the_source.
+
+(* ... and the constructor: NewMTData2Package with SetLength / SetIdentifier writing through the slice, REGENERATED from
+   mtdata2.go, builds exactly new_packet for every declared length 0..255 and every identifier *)
+Theorem C07_new_packet_model_is_the_source : forall len t c p, (0 <= len < 256)%Z ->
+  (0 <= Gen.Funcs.f_DataIdentifier_Uint16 t c p)%Z ->
+  g_NewMTData2Package len (t, c, p) = Val (new_packet (Z.to_N len) (Z.to_N (Gen.Funcs.f_DataIdentifier_Uint16 t c p))).
+Proof. exact new_packet_agrees. Qed.
